@@ -121,6 +121,30 @@ CHECKS = {
     design="6/C17", technique="TLA+ spec (Determinism.tla, iteration order as schedule) + TLC + differential runs in child interpreters validated by TLC",
     note=TRUSTED + "Stage-level dumps, not the full command line (needs HMMER/prodigal); address-dependent orders are sampled "
          "through heap noise; non-vacuity = inputs on which at least two iteration orders were observed."),
+ "C15": dict(
+    text=("Orfs.tla (on Ring.tla) defines the ORFs of a nucleotide string declaratively (first start after the previous in-frame "
+          "stop ... stop inclusive, minimum-length sandwich), their coordinates on a line or ring for either strand / offset / "
+          "record length incl. wrapping and the whole-record case, extraction in Biopython's transcription order, the translation, "
+          "and the gap-search relations. TLC checks the definition against a sweep-shaped model and the mapping/extraction "
+          "operators against each other on every A/T/G string <= 8 (10) bases and every concatenation of <= 5 (6) codon tokens, with "
+          "negative controls, and then decides in Orfs_Trace every observed result of scan_orfs (both strands, 11 window placements, "
+          "minimum lengths around the ORF lengths, plus what Biopython extracts through each reported location), "
+          "find_intergenic_areas (all layouts of <= 2 genes on 8 bases + random) and find_all_orfs on real records with genes and areas."),
+    design="6/C15", technique="TLA+ spec (Orfs.tla) + TLC model checking + TLC trace validation of real calls",
+    note=TRUSTED + "Exhaustive up to the stated string lengths; longer strings, C/N/R/Y/lower case and the find_all_orfs records are "
+         "seeded samples. Minimum length is a sandwich (> min must, < min must not, = min either). Gap search is soundness only "
+         "(completeness only without genes)."),
+ "C16": dict(
+    text=("RecordIds.tla states the post-condition of identifier sanitisation (pairwise distinct, no illegal character, <= 16 unless "
+          "long headers allowed, changed => original remembered, refusal only for an id without usable character; gene ids unique "
+          "or the record refused) and an implementation-shaped pipeline (de-duplicate -> shorten -> strip with a shared taken set). "
+          "TLC shows on every list of <= 3 ids from a pool of 19 (33), both settings, that the repaired pipeline satisfies the "
+          "post-condition and that the original pipeline shape violates it (negative controls), then decides in RecordIds_Trace the "
+          "observed ids/names/original ids of the real pre_process_sequences on every such list plus seeded random lists, and direct "
+          "calls of fix_record_name_id, generate_unique_id and Record.add_cds_feature."),
+    design="6/C16", technique="TLA+ spec (RecordIds.tla) + TLC model checking + TLC trace validation of real calls",
+    note=TRUSTED + "Exhaustive for lists <= 3 from the pool; random lists are samples. Ids reach the code as in-memory secmet Records; "
+         "1 cpu, in-process (the parallel path is C18's). Names are checked for characters/length, not uniqueness."),
 }
 CHECKS_END = None
 NOT_BUILT = "not built yet (work in progress, see DESIGN.md section 10 build order)"
